@@ -24,16 +24,16 @@ MT = ["Cat", "Last", "Sum", "Boom", "Same"]
 
 def run(rep, work, tier, seed):
     if tier == "quick":
-        mc = dict(NTasks=2, N=3, MaxOps=7, MaxRec=3, MaxT=0, MTypes=["Cat", "Boom"], Kinds=["s", "a"], Prep=False, Bug="none")
-        conf = dict(NTasks=2, N=2, MaxOps=5, MaxRec=3, MaxT=0, MTypes=MT, Kinds=["s", "a"], Prep=False, Bug="none")
+        mc = dict(NTasks=2, N=3, MaxOps=7, MaxRec=3, MaxT=0, MTypes=["Cat", "Boom"], Kinds=["s", "a"], Prep=False, Threads=False, Bug="none")
+        conf = dict(NTasks=2, N=2, MaxOps=5, MaxRec=3, MaxT=0, MTypes=MT, Kinds=["s", "a"], Prep=False, Threads=False, Bug="none")
     else:
-        mc = dict(NTasks=3, N=3, MaxOps=8, MaxRec=4, MaxT=0, MTypes=["Cat", "Boom"], Kinds=["s", "a"], Prep=False, Bug="none")
-        conf = dict(NTasks=2, N=3, MaxOps=6, MaxRec=3, MaxT=0, MTypes=MT, Kinds=["s", "a"], Prep=False, Bug="none")
+        mc = dict(NTasks=3, N=3, MaxOps=8, MaxRec=4, MaxT=0, MTypes=["Cat", "Boom"], Kinds=["s", "a"], Prep=False, Threads=False, Bug="none")
+        conf = dict(NTasks=2, N=3, MaxOps=6, MaxRec=3, MaxT=0, MTypes=MT, Kinds=["s", "a"], Prep=False, Threads=False, Bug="none")
     rep.extra["constants"] = dict(model=mc, conformance=conf)
     leg_m(rep, work, SPEC, f"mc_{tier}", cfg_text(mc, spec="Spec", invariants=INVS, properties=PROPS),
           expect_actions=["Open", "Close", "RunCb", "Start", "Record", "Drain"], timeout=3000)
     if tier == "thorough":
-        small = dict(NTasks=2, N=2, MaxOps=5, MaxRec=2, MaxT=0, MTypes=["Cat"], Kinds=["s", "a"], Prep=False)
+        small = dict(NTasks=2, N=2, MaxOps=5, MaxRec=2, MaxT=0, MTypes=["Cat"], Kinds=["s", "a"], Prep=False, Threads=False)
         leg_mutant(rep, work, SPEC, "mutant_record_parent",
                    cfg_text(dict(small, Bug="record_parent"), spec="Spec", invariants=INVS, properties=PROPS),
                    ["Attribution"])
@@ -44,13 +44,13 @@ def run(rep, work, tier, seed):
     # records landing in a scope object that was made in one place and entered in another: it is nested where it was made
     # (its values show in that scope's merged view, in creation order), it is current where it was entered
     madec = dict(NTasks=2, N=2, MaxOps=6 if tier == "quick" else 7, MaxRec=2, MaxT=0, MTypes=["Cat"], Kinds=["s", "a"],
-                 Prep=True, Bug="none")
+                 Prep=True, Threads=False, Bug="none")
     leg_m(rep, work, SPEC, f"made_mc_{tier}", cfg_text(madec, spec="Spec", invariants=INVS, properties=PROPS),
           expect_actions=["Make", "EnterMade", "Record", "RunCb"], timeout=3000)
     leg_r(rep, work, SPEC, f"made_conf_{tier}", cfg_text(madec, invariants=INVS), lambda: MetricsDriver(["Cat"]),
           internal=INTERNAL, world=True)
     # a metric type whose merge function answers with another class than the one recorded (a subclass folded into its base)
-    poly = dict(NTasks=1, N=2, MaxOps=6, MaxRec=3, MaxT=0, MTypes=["CatSub", "Last"], Kinds=["s"], Prep=False, Bug="none")
+    poly = dict(NTasks=1, N=2, MaxOps=6, MaxRec=3, MaxT=0, MTypes=["CatSub", "Last"], Kinds=["s"], Prep=False, Threads=False, Bug="none")
     leg_r(rep, work, SPEC, f"poly_conf_{tier}", cfg_text(poly, invariants=INVS), lambda: MetricsDriver(["CatSub", "Last"]),
           internal=INTERNAL, world=True)
     # leg T: random programs over 4 tasks / 8 scopes recorded from the real library, validated by a trace module
